@@ -88,6 +88,22 @@ theorem C19_numbers_by_value (a b : Val) (ha : InF a) (hb : InF b) (n m : Int)
   · rw [view_eq a b ha hb, hn, hm]; simp [viewEq]
   · intro h; rw [view_key a ha, view_key b hb, hn, hm, h]
 
+/-- Keys in `F` sort deterministically (what `drop_or_take`'s `sort_by(|a, b| a.cmp(b))` relies on): the model's
+`sortIdx` is a permutation of the input positions in ascending order with `Equal` keys in input order ... -/
+theorem C19_sort_keys_sorted_stable (vs : List Val) (h : ∀ v ∈ vs, InF v) :
+    (sortIdx vs).Perm (List.range vs.length) ∧ (sortIdx vs).Pairwise (Before vs) :=
+  sort_fold vs h (List.range vs.length) List.pairwise_lt_range
+
+/-- ... and it is the ONLY such arrangement: any stable sort of keys in `F` (whatever the algorithm) returns
+exactly `sortIdx` — which is why the implementation's `sort_by` can be compared with the model literally. -/
+theorem C19_sort_keys_unique (vs : List Val) (h : ∀ v ∈ vs, InF v) (l : List Nat)
+    (hp : l.Perm (List.range vs.length)) (hs : l.Pairwise (Before vs)) : l = sortIdx vs := by
+  have hm := C19_sort_keys_sorted_stable vs h
+  exact List.Perm.eq_of_pairwise (fun a b _ _ hab hba => (before_asymm vs h a b hab hba).elim) hs hm.2
+    (hp.trans hm.1.symm)
+
+example : sortIdx [.u64 2, .i32 1, .bigint 2, .text [97], .extant] = [3, 1, 0, 2, 4] := by decide
+
 example : InF (.record (.attr [97] (.i32 1) (.item (.u64 1) (.slot (.text [107]) (.bigint (-5)) .nil)))) := by decide
 example : (Val.record (.item (.i32 1) .nil)).eq (.record (.item (.biguint 1) .nil)) = true := by decide
 example : (Val.i32 (-1)).cmp (.u64 18446744073709551615) = .lt := by decide
